@@ -38,29 +38,32 @@ BUDGET = {
     "quick": {"history": 40000},
     "thorough": {"history": 900000},
 }
-FAULT_KINDS = ["abandon"]
+FAULT_KINDS = ["abandon", "close_after_call", "short_read"]
 TIME_UNIT = "logical steps (one entry-point call or one next() on a live lazy result); the component has no clock"
 RULE = (
     "one run = 1-2 array/object documents, 1-4 queries (simple, or compound with 1-3 | and & operators) and a history of "
-    "2-12 calls over {module, environment, compiled} x {findall, finditer, match, query} x 9 document forms; lazy results "
+    "2-12 calls over {module, environment, compiled} x {findall, finditer, match, query} x 11 document forms (incl. short-read "
+    "streams; a stream may be closed by the caller as soon as the call has returned); lazy results "
     "are advanced one match at a time in seeded interleaving with later calls, some abandoned mid-way. Non-trivial: the "
     "run used >= 2 document forms and >= 2 entry-point kinds on one (query, document) and some result was non-empty; "
     "distinct by event-log digest."
 )
-STATES_MEASURE = "distinct (entry level, method, document form, simple/compound, lazy-interleaved?) tuples (3 x 4 x 9 x 2 x 2 = 432 possible)"
+STATES_MEASURE = "distinct (entry level, method, document form, simple/compound, lazy-interleaved?) tuples (3 x 4 x 11 x 2 x 2 = 528 possible)"
 REAL = ["jsonpath package: env/compiled/module entry points, CompoundJSONPath, _data.load_data, fluent_api.Query"]
 STUB = ["SimFile single-use stream stubs (text and binary, non-seekable)", "iterator scheduler over live lazy results", "scratch real files"]
 ASSUMPTIONS = [
     "reference for a simple query is compiled.findall(parsed value); for a compound query additionally the left-to-right fold of its operands' own findall results",
     "results are compared as typed JSON (text and stream forms produce fresh objects)",
     "documents used with '&' contain no 0/1/true/false or 1/1.0 look-alikes, so Python equality and JSON equality coincide",
-    "no failing reads are injected: the statement gives them no meaning; the only fault kind is abandonment of a lazy result",
+    "no failing reads are injected: the statement gives them no meaning; fault kinds are abandonment of a lazy result, short reads "
+    "(read(n) returning fewer than n units before EOF, as pipes and sockets do) and the caller closing its stream once the call has returned",
 ]
 PROBES = ["large_document", "compound_x_stream_form", "lazy_alive_across_another_read", "match_on_empty", "query_values_view", "ctx_passed", "error_parity_case"]
 
 LEVELS = ["module", "env", "compiled"]
 METHODS = ["findall", "finditer", "match", "query"]
-FORMS = ["value", "text_compact", "text_indent", "text_noascii", "stringio", "bytesio", "simfile_text", "simfile_bin", "realfile"]
+FORMS = ["value", "text_compact", "text_indent", "text_noascii", "stringio", "bytesio", "simfile_text", "simfile_bin", "realfile",
+         "trickle_text", "trickle_bin"]
 STREAM_FORMS = FORMS[4:]
 
 _SCRATCH_ENV = jsonpath.JSONPathEnvironment()
@@ -111,6 +114,7 @@ def generate(seed: int, config: str, tier: str) -> Dict[str, Any]:
                 "view": rng.choice(["iter", "values", "items", "locations"]),
                 "abandon_after": frng.randrange(4) if (method in ("finditer", "query") and frng.random() < 0.15) else None,
                 "ctx_kw": rng.random() < 0.5,
+                "close_after": frng.random() < 0.3,
             }
         )
     # buggify-style size knob: now and then a document is larger than any plausible read chunk
@@ -144,6 +148,10 @@ def _doc_form(form: str, doc: Any, ctx: Ctx, opened: List[Any]) -> Any:
         return SimFile(text.encode(), text=True, name="doc.json")
     if form == "simfile_bin":
         return SimFile(text.encode(), text=False, name="doc.json", mode="rb")
+    if form in ("trickle_text", "trickle_bin"):
+        # a pipe/socket-like stream: read(n) hands out at most a few units per call (short reads)
+        return SimFile(text.encode(), text=form == "trickle_text", name="pipe", mode="r" if form == "trickle_text" else "rb",
+                       max_read=1 + ctx.seed % 17)
     if form == "realfile":
         path = os.path.join(_tmpdir(), f"doc{len(opened)}.json")
         with open(path, "w", encoding="utf-8") as f:
@@ -391,6 +399,19 @@ def execute(spec: Dict[str, Any], ctx: Ctx) -> None:
                 fail(clause, desc + f" raised {name}", f"raises {name}", want.show(), f"{clause}:{call['method']}:exc:{name}")
             ctx.log.add("raised", cid, name)
             continue
+        if call["form"] in ("trickle_text", "trickle_bin"):
+            ctx.count("fault.short_read.configured")
+            if getattr(data, "reads", 0):
+                ctx.count("fault.short_read.fired")
+        if call.get("close_after") and call["form"] in STREAM_FORMS:
+            # the entry point has returned: the caller is free to close its file (`with open(...)`)
+            ctx.count("fault.close_after_call.configured")
+            try:
+                data.close()
+                ctx.count("fault.close_after_call.fired")
+                ctx.log.add("close", cid)
+            except Exception:  # noqa: BLE001
+                pass
         if call["method"] == "findall":
             got_l = [core.tj(v) for v in res]
             wv = want.vals()
@@ -477,8 +498,8 @@ def shrink_plan(plan: Dict[str, Any]) -> Iterator[Dict[str, Any]]:
             p["calls"] = c
             yield p
     for i, c in enumerate(plan["calls"]):
-        for key, simple in (("form", "value"), ("level", "compiled"), ("method", "findall"), ("abandon_after", None)):
-            if c[key] != simple:
+        for key, simple in (("form", "value"), ("level", "compiled"), ("method", "findall"), ("abandon_after", None), ("close_after", False)):
+            if c.get(key, simple) != simple:
                 p = dict(plan)
                 p["calls"] = [dict(x) for x in plan["calls"]]
                 p["calls"][i][key] = simple
